@@ -55,7 +55,7 @@ def _ext_init(c):
     c.ensures('default_source_marked_external', PrefixOf(EXT, c.post('_source', me)))
 
 
-@contract('ExtEvent.send', qual='edzed.block:ExtEvent.send', modifies=('_output', '_event_active'), self_cls='ExtEvent')
+@contract('ExtEvent.send', qual='edzed.block:ExtEvent.send', modifies=DELIVERY, self_cls='ExtEvent')
 def _ext_send(c):
     me, value = c.z('self'), c.v('value')
     data = c.arg('data').arr
